@@ -746,3 +746,49 @@ Qed.
 Lemma stub_ignores_defaults : forall key a va vk nd nd' kwo kwd kwd' anns,
   method_annotation key (mk_argspec a va vk nd kwo kwd anns) = method_annotation key (mk_argspec a va vk nd' kwo kwd' anns).
 Proof. reflexivity. Qed.
+
+(* ---------------------------------------------------------------------------------------- *)
+(* from lines to the text generate_stub returns ("\n".join)                                  *)
+(* ---------------------------------------------------------------------------------------- *)
+Definition no_nl (s : str) : bool := forallb (fun c => negb (c =? 10)) s.
+
+Lemma split_on_line : forall x cur rest, no_nl x = true ->
+  split_on 10 cur (x ++ 10 :: rest) = (rev cur ++ x) :: split_on 10 [] rest.
+Proof.
+  induction x as [|c x IH]; intros cur rest H.
+  - cbn [app split_on]. rewrite N.eqb_refl. now rewrite app_nil_r.
+  - cbn [no_nl forallb] in H. apply andb_true_iff in H. destruct H as [Hc Hx]. apply negb_true_iff in Hc.
+    cbn [app split_on]. rewrite Hc. rewrite (IH (c :: cur) rest Hx). cbn [rev]. now rewrite <- app_assoc.
+Qed.
+
+Lemma split_on_last : forall x cur, no_nl x = true -> split_on 10 cur x = [rev cur ++ x].
+Proof.
+  induction x as [|c x IH]; intros cur H.
+  - cbn [split_on]. now rewrite app_nil_r.
+  - cbn [no_nl forallb] in H. apply andb_true_iff in H. destruct H as [Hc Hx]. apply negb_true_iff in Hc.
+    cbn [split_on]. rewrite Hc. rewrite (IH (c :: cur) Hx). cbn [rev]. now rewrite <- app_assoc.
+Qed.
+
+Lemma split_join_lines : forall lines, lines <> [] -> forallb no_nl lines = true -> split 10 (join [10] lines) = lines.
+Proof.
+  induction lines as [|x r IH]; intros Hne H; [now elim Hne|].
+  cbn [forallb] in H. apply andb_true_iff in H. destruct H as [Hx Hr]. unfold split in *.
+  destruct r as [|y r'].
+  - cbn [join]. now rewrite (split_on_last x [] Hx).
+  - change (join [10] (x :: y :: r')) with (x ++ 10 :: join [10] (y :: r')).
+    rewrite (split_on_line x [] _ Hx). cbn [rev app]. f_equal. apply IH; [discriminate|exact Hr].
+Qed.
+
+Theorem parse_text_render : forall s,
+  stub_ok s = true -> forallb no_nl (render s) = true -> parse_text (join [10] (render s)) = Some s.
+Proof.
+  intros s Hok Hnl. unfold parse_text. rewrite split_join_lines; [now apply parse_render| |exact Hnl].
+  unfold render. discriminate.
+Qed.
+
+Example parse_text_render_satisfiable :
+  let s := mk_stub (sa "Foo") [(sa "a", sa "typing.Dict[str, int]")] [(sa "a", sa "typing.Dict[str, int]")]
+             [mk_mdef (sa "m") (mk_args [(s_self, None); (sa "x", Some (sa "int"))] None [(sa "k", Some s_any)] (Some (sa "kw")))
+                      (Some (sa "None"))] in
+  stub_ok s = true /\ forallb no_nl (render s) = true.
+Proof. split; reflexivity. Qed.
